@@ -236,19 +236,7 @@ func lemmaF2GuardInsufficient() (ok bool) {
 //@   opaque
 //@   allocates
 
-// Rename: the tree is consulted (find is called) only when the normalised new name is not inside the
-// normalised old name, i.e. is not oldName + "/" + more (oldName, newName below are the function's
-// variables after `oldName = slashClean(oldName); newName = slashClean(newName)`); a call that does
-// not consult the tree returns nil (same name) or os.ErrInvalid. So renaming a directory into its
-// own subtree is refused with ErrInvalid before any map access, whatever the spelling of the names.
-//
-//@ func (*memFS).Rename(fs, ctx, oldName, newName) (err)
-//@   requires fs != nil
-//@   noframe
-//@   partial nopanic
-//@   ghost finds += 1 at call find
-//@   assert at call find: !(len(newName) > len(oldName) && newName[len(oldName)] == '/' && (forall i int :: 0 <= i && i < len(oldName) ==> newName[i] == oldName[i]))
-//@   ensures ghost(finds) == 0 ==> err == nil || err == os.ErrInvalid
+// memFS.Rename: contract in verif_dav2.go (stated over the entry names).
 
 //@ func (*memFS).RemoveAll(fs, ctx, name) (err)
 //@   requires fs != nil
@@ -282,12 +270,13 @@ func lemmaF2GuardInsufficient() (ok bool) {
 
 // lookup: the node returned is not held by a Confirm call (so a confirmed lock cannot be confirmed
 // again until released), and its root covers the name: equal, or - only for an infinite-depth lock -
-// the root is "/" or the name extends root + "/". (That the node is registered under the token of one
-// of the conditions needs a spec-level read of a string-keyed map, which the engine does not support.)
+// the root is "/" or the name extends root + "/"; the node is registered under the token of one of the
+// conditions.
 //
 //@ func (*memLS).lookup(m, name, conditions) (n)
 //@   requires m != nil
 //@   ensures n != nil ==> !n.held
+//@   ensures n != nil ==> (exists i int :: 0 <= i && i < len(conditions) && m.byToken[conditions[i].Token] == n)
 //@   ensures n != nil && name != n.details.Root ==> !n.details.ZeroDepth
 //@   ensures n != nil && name != n.details.Root && n.details.Root != "/" ==> len(name) > len(n.details.Root) && name[len(n.details.Root)] == '/'
 //@   ensures forall i int :: n != nil && name != n.details.Root && n.details.Root != "/" && 0 <= i && i < len(n.details.Root) ==> name[i] == n.details.Root[i]
